@@ -1,4 +1,7 @@
-import AuModel.Chrono
+import AuProofs.Lemmas.Chrono
+import AuProofs.Lemmas.ChronoOps
+set_option linter.unusedSimpArgs false
+set_option linter.unusedVariables false
 namespace Au.Chrono
 
 /-- The six special mappings name units whose magnitude is the generic `Seconds × Period` one. -/
@@ -12,9 +15,248 @@ theorem C17_special_units_agree (r : Rep) (p : Period) (n : String) (m : Mag)
     all_goals subst_vars
     all_goals decide +kernel
 
+/-- Whatever spelling `CorrespondingQuantity` picks, the unit's magnitude is that of
+`Seconds × Period`. -/
+theorem corrUnit_mag (r : Rep) (p : Period) : (corrUnit r p).2 = ratioMag p := by
+  unfold corrUnit
+  split
+  · rename_i n m h; exact C17_special_units_agree r p n m h
+  · rfl
+
+theorem asQuantity_mag (d : Duration) : (asQuantity d).mag = ratioMag d.period := corrUnit_mag _ _
+
+/-- **C17, round trip.**  For every duration `d` (any of the four reps, any positive period whose
+reduced terms fit `intmax_t`, any count): `as_quantity(d)` has `d`'s rep and count, its unit is
+seconds × Period (numerator and denominator of the unit's magnitude are `Period::num`,
+`Period::den`), `as_chrono_duration` of it is well-formed and returns `d`'s rep, the reduced
+period and `d`'s count, and the implicit conversion back to `d`'s own type returns `d`. -/
+theorem C17_roundtrip (d : Duration) (hp : d.period.Pos)
+    (hn : (d.period.norm.num : Int) ≤ i64hi) (hd : (d.period.norm.den : Int) ≤ i64hi) :
+    (asQuantity d).rep = d.rep ∧ (asQuantity d).value = d.count ∧
+    (Mag.numerator (asQuantity d).mag).natValue = d.period.norm.num ∧
+    (Mag.denominator (asQuantity d).mag).natValue = d.period.norm.den ∧
+    asChronoDuration (asQuantity d) = .ok (some ⟨d.rep, d.period.norm, d.count⟩) ∧
+    toDuration (asQuantity d) d.rep d.period = .ok (some d) := by
+  have hmag := asQuantity_mag d
+  obtain ⟨hi1, hv1, hi2, hv2⟩ := ratioMag_value hp
+  have hok := ok_ratioMag hp
+  have htd : ∀ p' : Period, ratioMag p' = ratioMag d.period →
+      toDuration (asQuantity d) d.rep p' = .ok (some ⟨d.rep, p', d.count⟩) := by
+    intro p' hp'
+    unfold toDuration
+    have hu : (corrUnit d.rep p').2 = (asQuantity d).mag := by rw [corrUnit_mag, hp', hmag]
+    have hsf : Mag.div (asQuantity d).mag (corrUnit d.rep p').2 = [] := by
+      rw [hu, hmag]; exact Mag.div_self hok
+    have hrep : (asQuantity d).rep = d.rep := rfl
+    simp only [permitImplicitFrom, hsf, corePolicy, hrep, and_self, if_true]
+    rfl
+  refine ⟨rfl, rfl, by rw [hmag]; exact hv1, by rw [hmag]; exact hv2, ?_, ?_⟩
+  · unfold asChronoDuration
+    rw [Mag.div_nil, hmag]
+    have g1 : getValueInt IntTy.i64 (Mag.numerator (ratioMag d.period)) = some (d.period.norm.num : Int) := by
+      unfold getValueInt
+      rw [hi1, hv1]
+      have : ((d.period.norm.num : Int) ≤ IntTy.i64.hi) := hn
+      simp [this]
+    have g2 : getValueInt IntTy.i64 (Mag.denominator (ratioMag d.period)) = some (d.period.norm.den : Int) := by
+      unfold getValueInt
+      rw [hi2, hv2]
+      have : ((d.period.norm.den : Int) ≤ IntTy.i64.hi) := hd
+      simp [this]
+    simp only [g1, g2, Int.toNat_natCast]
+    exact htd d.period.norm (ratioMag_norm hp)
+  · exact htd d.period rfl
+
+/-- Non-vacuity and a concrete instance: `duration<int32_t, ratio<2, 4>>{7}`. -/
+example : asChronoDuration (asQuantity ⟨.i32, ⟨2, 4⟩, .i 7⟩) = .ok (some ⟨.i32, ⟨1, 2⟩, .i 7⟩) ∧
+    (⟨2, 4⟩ : Period).Pos ∧ (((⟨2, 4⟩ : Period).norm.num : Int) ≤ i64hi) := by
+  refine ⟨by decide +kernel, ⟨by decide, by decide⟩, by decide +kernel⟩
+
+/-- **C17, common period.**  For all positive periods, Au's common unit of the two corresponding
+units *is* the unit of chrono's common period `gcd(n₁,n₂)/lcm(d₁,d₂)` (the same magnitude pack),
+and both libraries scale each operand by the same integer: the unit ratio is an integer magnitude
+whose value is the numerator of `std::ratio_divide<Pᵢ, CommonPeriod>`, whose denominator is 1. -/
+theorem C17_common_period (p1 p2 : Period) (h1 : p1.Pos) (h2 : p2.Pos) :
+    Mag.common (ratioMag p1) (ratioMag p2) = ratioMag (chronoCommonPeriod p1 p2) ∧
+    chronoCommonPeriod p1 p2 = ⟨Nat.gcd p1.norm.num p2.norm.num, Nat.lcm p1.norm.den p2.norm.den⟩ ∧
+    (Mag.numerator (Mag.common (ratioMag p1) (ratioMag p2))).natValue = Nat.gcd p1.norm.num p2.norm.num ∧
+    (Mag.denominator (Mag.common (ratioMag p1) (ratioMag p2))).natValue = Nat.lcm p1.norm.den p2.norm.den ∧
+    (Mag.div (ratioMag p1) (Mag.common (ratioMag p1) (ratioMag p2))).isInteger = true ∧
+    (Mag.div (ratioMag p1) (Mag.common (ratioMag p1) (ratioMag p2))).natValue = (ratioDivide p1 (chronoCommonPeriod p1 p2)).num ∧
+    (ratioDivide p1 (chronoCommonPeriod p1 p2)).den = 1 ∧
+    (Mag.div (ratioMag p2) (Mag.common (ratioMag p1) (ratioMag p2))).isInteger = true ∧
+    (Mag.div (ratioMag p2) (Mag.common (ratioMag p1) (ratioMag p2))).natValue = (ratioDivide p2 (chronoCommonPeriod p1 p2)).num ∧
+    (ratioDivide p2 (chronoCommonPeriod p1 p2)).den = 1 :=
+  common_period_all p1 p2 h1 h2
+
+example : Mag.common (ratioMag ⟨1001, 30000⟩) (ratioMag ⟨1, 60⟩) = ratioMag ⟨1, 30000⟩ ∧
+    chronoCommonPeriod ⟨1001, 30000⟩ ⟨1, 60⟩ = ⟨1, 30000⟩ := by decide +kernel
+
 /-- A duration is implicitly accepted by a quantity type exactly when its corresponding quantity
 is: same compile-time outcome (including ill-formedness), for every target and every duration. -/
 theorem C17_accept_iff_corresponding (tgtMag : Mag) (tgtRep : Rep) (d : Duration) :
     durationAccepted tgtMag tgtRep d = quantityConvertible tgtMag tgtRep (asQuantity d) := rfl
+
+
+/-- **C17, acceptance rule.**  For every target `Quantity<Seconds × tp, tr>` and every duration:
+a floating target accepts every duration; an integral target accepts exactly the integral-rep
+durations whose period is an integer multiple `k` of the target unit with `2147·k ≤ max(tr)` —
+except that for `k > max(tr)` the question itself is ill-formed (finding F2).  `ratioDivide` is
+`std::ratio_divide<Period, tp>` in lowest terms: `den = 1` says "integer multiple", `num` is `k`. -/
+theorem C17_accept_formula (tp : Period) (tr : Rep) (d : Duration) (htp : tp.Pos) (hdp : d.period.Pos) :
+    durationAccepted (ratioMag tp) tr d =
+      match tr.intTy? with
+      | none => .ok true
+      | some t =>
+        if d.rep.isIntegral = false then .ok false
+        else if (ratioDivide d.period tp).den ≠ 1 then .ok false
+        else if ((ratioDivide d.period tp).num : Int) > t.hi then .hard hardMsg
+        else .ok (decide (2147 * ((ratioDivide d.period tp).num : Int) ≤ t.hi)) := by
+  obtain ⟨hiff, hval⟩ := scaleFactor_spec hdp htp
+  have hok := Mag.ok_div (ok_ratioMag hdp) (ok_ratioMag htp)
+  unfold durationAccepted quantityConvertible
+  rw [asQuantity_mag]
+  have hrep : (asQuantity d).rep = d.rep := rfl
+  rw [hrep]
+  generalize hrd : ratioDivide d.period tp = rd at *
+  cases htr : tr.intTy? with
+  | none =>
+    unfold permitImplicitFrom
+    have : corePolicy tr (Mag.div (ratioMag d.period) (ratioMag tp)) d.rep = .ok true := by
+      unfold corePolicy; rw [htr]; split <;> rfl
+    simp [this]
+  | some t =>
+    cases hsi : d.rep.isIntegral with
+    | false =>
+      unfold permitImplicitFrom
+      have hne : tr ≠ d.rep := by
+        intro h; rw [← h] at hsi; simp [Rep.isIntegral, htr] at hsi
+      have : corePolicy tr (Mag.div (ratioMag d.period) (ratioMag tp)) d.rep = .ok false := by
+        unfold corePolicy; simp [hne, htr, hsi]
+      simp [this, carveOut, hsi]
+    | true =>
+      simp only [Bool.true_eq_false, if_false]
+      rw [permit_int_int tr d.rep t htr hsi _ _ hok]
+      generalize Mag.div (ratioMag d.period) (ratioMag tp) = sf at *
+      cases hi : sf.isInteger with
+      | false =>
+        have : rd.den ≠ 1 := fun h => by rw [hiff.2 h] at hi; cases hi
+        simp [this]
+      | true =>
+        have hden := hiff.1 hi
+        rw [hval hi]
+        simp [hden]
+
+/-- Au never accepts a duration that chrono's own converting constructor refuses; for a floating
+target both accept everything. -/
+theorem C17_accept_implies_chrono (tp : Period) (tr : Rep) (d : Duration) (htp : tp.Pos) (hdp : d.period.Pos)
+    (h : durationAccepted (ratioMag tp) tr d = .ok true) :
+    chronoConvertible tr tp d.rep d.period = true := by
+  rw [C17_accept_formula tp tr d htp hdp] at h
+  unfold chronoConvertible
+  cases tr <;> simp [Rep.intTy?, Rep.isFloat, Rep.fmt?] at h ⊢
+  all_goals
+    cases hr : d.rep <;> simp [hr, Rep.isIntegral, Rep.intTy?, Rep.fmt?] at h ⊢
+    all_goals
+      by_contra hden
+      simp [hden] at h
+
+/-- Non-vacuity / instances: int32 milliseconds accept int32 seconds (k = 1000), refuse int32
+hours?  no: 3 600 000·2147 > 2^31; the question is ill-formed for nanoseconds ← hours (F2). -/
+example : durationAccepted (ratioMag ⟨1, 1000⟩) .i32 ⟨.i32, ⟨1, 1⟩, .i 0⟩ = .ok true ∧
+    durationAccepted (ratioMag ⟨1, 1000⟩) .i32 ⟨.i32, ⟨3600, 1⟩, .i 0⟩ = .ok false ∧
+    durationAccepted (ratioMag ⟨1, 1000000000⟩) .i32 ⟨.i32, ⟨3600, 1⟩, .i 0⟩ = .hard hardMsg ∧
+    durationAccepted (ratioMag ⟨1, 1⟩) .i32 ⟨.i32, ⟨1000225, 1⟩, .i 0⟩ = .ok true ∧
+    durationAccepted (ratioMag ⟨1, 1⟩) .i32 ⟨.i32, ⟨1000226, 1⟩, .i 0⟩ = .ok false := by
+  decide +kernel
+
+
+
+/-! ## Mixed duration / quantity operations -/
+
+/-- **C17, mixed operations.**  For every operation `op ∈ {==, !=, <, <=, >, >=, +, -}`, all four
+reps on either side, all positive periods whose chrono conversion factors fit `intmax_t`, and all
+counts that are values of their rep: whenever chrono's own computation `d₁ op d₂` is clean (no
+undefined behaviour, every intermediate finite, no value-changing narrowing) with result `v`, Au's
+mixed operation returns exactly `v` — with the Quantity on the left (any spelling of the unit
+seconds × Period₁, in particular `as_quantity(d₁)`) or on the right.  The rounding function `R` is
+arbitrary; the two facts `RoundingOK R` are needed only when the common rep is floating. -/
+theorem C17_mixed_ops_agree (R : Rounding) (op : Op) (d1 d2 : Duration) (nm : Option String)
+    (hR : (Rep.common d1.rep d2.rep).isFloat = true → RoundingOK R)
+    (h1 : d1.period.Pos) (h2 : d2.period.Pos)
+    (hx1 : d1.count.Holds R d1.rep) (hx2 : d2.count.Holds R d2.rep)
+    (hc1 : ((ratioDivide d1.period (chronoCommonPeriod d1.period d2.period)).num : Int) ≤ i64hi)
+    (hc2 : ((ratioDivide d2.period (chronoCommonPeriod d1.period d2.period)).num : Int) ≤ i64hi)
+    (v : OpVal) (hclean : (chronoOp R op d1 d2).Clean v) :
+    mixedOpQD R op ⟨d1.rep, ratioMag d1.period, nm, d1.count⟩ d2 = .ok v ∧
+    mixedOpQD R op (asQuantity d1) d2 = .ok v ∧
+    mixedOpDQ R op d1 ⟨d2.rep, ratioMag d2.period, nm, d2.count⟩ = .ok v ∧
+    mixedOpDQ R op d1 (asQuantity d2) = .ok v := by
+  refine ⟨?_, ?_, ?_, ?_⟩
+  · exact quantityOp_agree R op _ _ d1 d2 hR rfl rfl rfl (asQuantity_mag d2) rfl rfl h1 h2 hx1 hx2 hc1 hc2 v hclean
+  · exact quantityOp_agree R op _ _ d1 d2 hR (asQuantity_mag d1) rfl rfl (asQuantity_mag d2) rfl rfl h1 h2 hx1 hx2 hc1 hc2 v hclean
+  · exact quantityOp_agree R op _ _ d1 d2 hR (asQuantity_mag d1) rfl rfl rfl rfl rfl h1 h2 hx1 hx2 hc1 hc2 v hclean
+  · exact quantityOp_agree R op _ _ d1 d2 hR (asQuantity_mag d1) rfl rfl (asQuantity_mag d2) rfl rfl h1 h2 hx1 hx2 hc1 hc2 v hclean
+
+/-- Integral reps: no hypothesis about floating point at all. -/
+theorem C17_mixed_ops_agree_int (R : Rounding) (op : Op) (d1 d2 : Duration) (nm : Option String)
+    (hi1 : d1.rep.isIntegral = true) (hi2 : d2.rep.isIntegral = true)
+    (h1 : d1.period.Pos) (h2 : d2.period.Pos)
+    (hx1 : d1.count.Holds R d1.rep) (hx2 : d2.count.Holds R d2.rep)
+    (hc1 : ((ratioDivide d1.period (chronoCommonPeriod d1.period d2.period)).num : Int) ≤ i64hi)
+    (hc2 : ((ratioDivide d2.period (chronoCommonPeriod d1.period d2.period)).num : Int) ≤ i64hi)
+    (v : OpVal) (hclean : (chronoOp R op d1 d2).Clean v) :
+    mixedOpQD R op (asQuantity d1) d2 = .ok v ∧ mixedOpDQ R op d1 (asQuantity d2) = .ok v := by
+  have hR : (Rep.common d1.rep d2.rep).isFloat = true → RoundingOK R := by
+    intro h
+    cases hr1 : d1.rep <;> cases hr2 : d2.rep <;> simp [hr1, hr2, Rep.isIntegral, Rep.intTy?, Rep.common, Rep.isFloat, Rep.fmt?] at hi1 hi2 h
+  have := C17_mixed_ops_agree R op d1 d2 nm hR h1 h2 hx1 hx2 hc1 hc2 v hclean
+  exact ⟨this.2.1, this.2.2.2⟩
+
+/-- Non-vacuity: `duration<int32_t, ratio<1,60>>{7} + Quantity<milli(seconds), int32_t>{3}` — chrono's
+computation is clean with result 359 (common period 1/3000), all hypotheses hold, and the model's
+mixed sum is 359. -/
+example : (chronoOp rne .add ⟨.i32, ⟨1, 60⟩, .i 7⟩ ⟨.i32, ⟨1, 1000⟩, .i 3⟩).Clean (.v (.i 359)) ∧
+    (Val.i 7).Holds rne .i32 ∧
+    ((ratioDivide ⟨1, 60⟩ (chronoCommonPeriod ⟨1, 60⟩ ⟨1, 1000⟩)).num : Int) ≤ i64hi ∧
+    mixedOpDQ rne .add ⟨.i32, ⟨1, 60⟩, .i 7⟩ (asQuantity ⟨.i32, ⟨1, 1000⟩, .i 3⟩) = .ok (.v (.i 359)) := by
+  refine ⟨⟨by decide +kernel, by decide +kernel⟩, ⟨IntTy.i32, rfl, by decide⟩, by decide +kernel, by decide +kernel⟩
+
+/-- The hypothesis "chrono's computation is clean" cannot be dropped: with int32 reps chrono
+multiplies in `intmax_t` and narrows (implementation-defined wrap-around), Au multiplies in
+`int32_t` (undefined behaviour).  `duration<int32_t, milli>{2000000000}` vs
+`duration<int32_t, micro>{7}`. -/
+def C17_mixed_ops_unconditional : Prop :=
+  ∀ (op : Op) (d1 d2 : Duration), mixedOpQD rne op (asQuantity d1) d2 = (chronoOp rne op d1 d2).val
+
+theorem C17_mixed_ops_unconditional_counterexample : ¬ C17_mixed_ops_unconditional := by
+  intro h
+  have := h .add ⟨.i32, ⟨1, 1000⟩, .i 2000000000⟩ ⟨.i32, ⟨1, 1000000⟩, .i 7⟩
+  revert this
+  decide +kernel
+
+/-! ## Well-formedness of mixed operations -/
+
+/-- What the documentation promises: a mixed operation is well-formed exactly when the
+overflow-threshold policy admits both conversions to the common type. -/
+def C17_mixed_compiles_full : Prop :=
+  ∀ (q1 q2 : Quantity), mixedCompiles q1 q2 = policyCompiles q1 q2
+
+/-- False on the code as it is (finding F2 leaks through overload resolution):
+`Quantity<Nano<Seconds>, int32_t>` op `std::chrono::hours` (int64 rep) is ill-formed although the
+common type (int64 nanoseconds, factor 3.6·10¹²) passes the policy. -/
+theorem C17_mixed_compiles_counterexample : ¬ C17_mixed_compiles_full := by
+  intro h
+  have := h ⟨.i32, ratioMag ⟨1, 1000000000⟩, none, .i 0⟩ (asQuantity ⟨.i64, ⟨3600, 1⟩, .i 0⟩)
+  revert this
+  decide +kernel
+
+/-- Outside the F2 region the promise holds. -/
+theorem C17_mixed_compiles_partial (q1 q2 : Quantity) (h : friendsWellFormed q1 q2 = .ok ()) :
+    mixedCompiles q1 q2 = policyCompiles q1 q2 := by
+  unfold mixedCompiles; rw [h]
+
+example : friendsWellFormed ⟨.i32, ratioMag ⟨1, 1000⟩, none, .i 0⟩ (asQuantity ⟨.i64, ⟨3600, 1⟩, .i 0⟩) = .ok () := by
+  decide +kernel
 
 end Au.Chrono
